@@ -923,6 +923,8 @@ pub struct Target {
     pub has_validation: bool,
     pub new_unchecked: bool,
     pub vis: Vis,
+    /// the type as written in type position (`Tg9<i64>` for a generic target, else the name)
+    pub xt: String,
 }
 
 fn targets(tier: Tier) -> Vec<Target> {
@@ -936,8 +938,11 @@ fn targets(tier: Tier) -> Vec<Target> {
         *n += 1;
         let name = format!("Tg{n}");
         let mk = if has_validation { format!("{name}::try_new({val}).unwrap()") } else { format!("{name}::new({val})") };
+        let generic = attr.contains("/*generic*/");
+        let attr = attr.replace("/*generic*/", "");
         out.push(Target {
-            item: format!("{}struct {name}({ty});", vis.src()),
+            xt: if generic { format!("{name}<i64>") } else { name.clone() },
+            item: if generic { format!("{}struct {name}<T: Ord>(Vec<T>);", vis.src()) } else { format!("{}struct {name}({ty});", vis.src()) },
             inner_ty: ty,
             val,
             mk,
@@ -960,6 +965,7 @@ fn targets(tier: Tier) -> Vec<Target> {
     add(format!("sanitize(with = ulib::clamp_10_100), derive(Debug, Clone, Copy, AsRef, Deref, Borrow, From, Into, Default), default = 50"), "i32", "50", Vis::PubCrate, false, &mut out, &mut n);
     add("validate(not_empty), derive(Debug, Deref, AsRef, Borrow)".to_string(), "String", "\"abc\".to_string()", Vis::Private, true, &mut out, &mut n);
     add(format!("validate(predicate = ulib::vec_short), derive({all_vec}), new_unchecked"), "Vec<i64>", "vec![1i64]", Vis::PubSuper, true, &mut out, &mut n);
+    add("/*generic*/sanitize(with = ulib::sort_dedup), validate(predicate = ulib::vec_nonempty), derive(Debug, Clone, PartialEq, Eq, PartialOrd, Ord, AsRef, Deref, TryFrom, Into, Hash, Borrow, IntoIterator, Serialize, Deserialize)".to_string(), "Vec<i64>", "vec![1i64, 2]", Vis::Pub, true, &mut out, &mut n);
     if tier == Tier::Thorough {
         add(format!("validate(less_or_equal = 200), derive({all_int})"), "u8", "5", Vis::Pub, true, &mut out, &mut n);
         add(format!("validate(with = ulib::check_int, error = NumErr), derive(Debug, Clone, Copy, PartialEq, Eq, PartialOrd, Ord, FromStr, AsRef, Deref, TryFrom, Into, Hash, Borrow, Display, Serialize, Deserialize)"), "i64", "5", Vis::Pub, true, &mut out, &mut n);
@@ -976,6 +982,7 @@ pub fn c05_cases(tier: Tier) -> Vec<Case> {
     let mut cases: Vec<Case> = vec![];
     for t in targets(tier) {
         let x = &t.name;
+        let xt = &t.xt;
         let i = t.inner_ty;
         let val = t.val;
         let mk = &t.mk;
@@ -995,7 +1002,7 @@ pub fn c05_cases(tier: Tier) -> Vec<Case> {
         };
         if !nameable_from_sibling {
             // a private newtype (and its error types) cannot even be named outside the declaring module
-            sib("attack", "reject", "name-private-type", format!("let _ = core::mem::size_of::<{x}>();"), &mut cases);
+            sib("attack", "reject", "name-private-type", format!("let _ = core::mem::size_of::<{xt}>();"), &mut cases);
             let mut c = Case::new("attack", "reject", "name-private-error-type", format!("use super::m{decl_idx}::inner::{x}Error;\npub fn f() {{ let _ = core::mem::size_of::<{x}Error>(); }}\n"));
             c.text = format!("[{}] use {x}Error from a sibling module", t.attr);
             c.belongs_to = Some(decl_idx);
@@ -1019,7 +1026,7 @@ pub fn c05_cases(tier: Tier) -> Vec<Case> {
         if t.has_default {
             sib("control", "accept", "default-with-default", format!("    let _ = {x}::default();"), &mut cases);
         } else {
-            sib("attack", "reject", "default-without-default", format!("    let _ = <{x} as Default>::default();"), &mut cases);
+            sib("attack", "reject", "default-without-default", format!("    let _ = <{xt} as Default>::default();"), &mut cases);
         }
         if t.new_unchecked {
             sib("control", "accept", "new_unchecked-in-unsafe", format!("    let _ = unsafe {{ {x}::new_unchecked({val}) }};"), &mut cases);
@@ -1036,7 +1043,7 @@ pub fn c05_cases(tier: Tier) -> Vec<Case> {
             ("field-write", format!("    let mut t = {mk};\n    t.0 = {val};")),
             ("destructure-let", format!("    let {x}(x) = {mk};\n    let _ = x;")),
             ("destructure-ref-mut", format!("    let mut t = {mk};\n    match t {{ {x}(ref mut x) => {{ *x = {val}; }} }}")),
-            ("destructure-param", format!("    fn g({x}(x): {x}) -> {i} {{ x }}\n    let _ = g({mk});")),
+            ("destructure-param", format!("    fn g({x}(x): {xt}) -> {i} {{ x }}\n    let _ = g({mk});")),
             ("pattern-wildcard", format!("    let t = {mk};\n    if let {x}(_) = t {{}}")),
             ("deref-assign", format!("    let mut t = {mk};\n    *t = {val};")),
             ("deref_mut", format!("    use core::ops::DerefMut;\n    let mut t = {mk};\n    let r: &mut {i} = t.deref_mut();\n    *r = {val};")),
@@ -1044,16 +1051,16 @@ pub fn c05_cases(tier: Tier) -> Vec<Case> {
             ("borrow_mut", format!("    use core::borrow::BorrowMut;\n    let mut t = {mk};\n    let r: &mut {i} = t.borrow_mut();\n    *r = {val};")),
             ("mem-take-through-deref", format!("    let mut t = {mk};\n    let _ = core::mem::replace(&mut *t, {val});")),
             ("private-module-path", format!("    let _ = super::m{decl_idx}::inner::__nutype_{x}__::{x}({val});")),
-            ("private-module-name", format!("    use super::m{decl_idx}::inner::__nutype_{x}__ as secret;\n    let _ = core::mem::size_of::<secret::{x}>();")),
-            ("inherent-impl-constructor", format!("    trait Evil {{ fn evil() -> Self; }}\n    impl Evil for {x} {{ fn evil() -> Self {{ {x}({val}) }} }}\n    let _ = <{x} as Evil>::evil();")),
+            ("private-module-name", format!("    use super::m{decl_idx}::inner::__nutype_{x}__ as secret;\n    let _ = core::mem::size_of::<secret::{xt}>();")),
+            ("inherent-impl-constructor", format!("    trait Evil {{ fn evil() -> Self; }}\n    impl Evil for {xt} {{ fn evil() -> Self {{ {x}({val}) }} }}\n    let _ = <{xt} as Evil>::evil();")),
             ("sanitize-is-private", format!("    let _ = {x}::__sanitize__({val});")),
         ];
         for (class, body) in attacks {
             sib("attack", "reject", class, body, &mut cases);
         }
         if t.has_validation {
-            sib("attack", "reject", "from-inner-with-validation", format!("    let _: {x} = {x}::from({val});"), &mut cases);
-            sib("attack", "reject", "into-newtype-with-validation", format!("    let v: {i} = {val};\n    let _: {x} = v.into();"), &mut cases);
+            sib("attack", "reject", "from-inner-with-validation", format!("    let _: {xt} = {x}::from({val});"), &mut cases);
+            sib("attack", "reject", "into-newtype-with-validation", format!("    let v: {i} = {val};\n    let _: {xt} = v.into();"), &mut cases);
             sib("attack", "reject", "new-with-validation", format!("    let _ = {x}::new({val});"), &mut cases);
         }
         if t.is_vec {
@@ -1255,3 +1262,66 @@ pub fn c15_header() -> String {
 }
 
 pub const C15_HELPERS: &str = "pub fn clamp_i(v: i32) -> i32 { if v < 10 { 10 } else if v > 100 { 100 } else { v } }\npub const fn c_clamp_i(v: i32) -> i32 { if v < 10 { 10 } else if v > 100 { 100 } else { v } }\npub fn even(v: &i32) -> bool { *v % 2 == 0 }\npub const fn c_even(v: &i32) -> bool { *v % 2 == 0 }\npub fn abs_f(v: f64) -> f64 { if v < 0.0 { -v } else { v } }\npub fn small(v: &f64) -> bool { *v < 1000.0 }\n#[derive(Debug, Clone, PartialEq)]\npub enum MyErr { Bad }\nimpl core::fmt::Display for MyErr { fn fmt(&self, f: &mut core::fmt::Formatter<'_>) -> core::fmt::Result { write!(f, \"bad\") } }\npub fn check_i(v: &i32) -> Result<(), MyErr> { if *v < 0 { Err(MyErr::Bad) } else { Ok(()) } }\npub fn check_f(v: &f64) -> Result<(), MyErr> { if *v < 0.0 { Err(MyErr::Bad) } else { Ok(()) } }\n#[derive(Debug, Clone, Copy, PartialEq, Eq, PartialOrd, Ord, Hash, Default)]\npub struct Pt { pub x: i32, pub y: i32 }\nimpl core::fmt::Display for Pt { fn fmt(&self, f: &mut core::fmt::Formatter<'_>) -> core::fmt::Result { write!(f, \"{},{}\", self.x, self.y) } }\nimpl core::str::FromStr for Pt { type Err = MyErr; fn from_str(_s: &str) -> Result<Self, MyErr> { Err(MyErr::Bad) } }\npub fn on_diag(p: &Pt) -> bool { p.x == p.y }\n";
+
+// ------------------------------------------------------------------------------------------------
+// C09 (compile-or-behave part): combinations for which the macro cannot know the valid set (custom `with`
+// sanitizer next to validators, predicates, custom validation). Refusing them is fine; if one is accepted its
+// generated `arbitrary()` must still be total and produce only valid values on the probe inputs.
+
+pub fn c09x_cases(_tier: Tier) -> Vec<Case> {
+    let mut cases = vec![];
+    let inputs: Vec<Vec<u8>> = {
+        let mut v: Vec<Vec<u8>> = vec![vec![]];
+        for b in 0..=255u8 {
+            v.push(vec![b]);
+        }
+        for len in [2usize, 4, 8, 16] {
+            v.push(vec![0x00; len]);
+            v.push(vec![0xff; len]);
+            v.push((0..len).map(|i| (i * 37 + 1) as u8).collect());
+        }
+        v
+    };
+    let decls: Vec<(&str, &str)> = vec![
+        ("sanitize(with = ulib::to_even), validate(greater = 0), derive(Debug, Arbitrary)", "u8"),
+        ("sanitize(with = ulib::to_even), validate(greater = 0, less = 3), derive(Debug, Arbitrary)", "i32"),
+        ("sanitize(with = ulib::wrap_add1), validate(less_or_equal = 5), derive(Debug, Arbitrary)", "u16"),
+        ("sanitize(with = ulib::clamp_10_100), validate(less = 10), derive(Debug, Arbitrary)", "i64"),
+        ("sanitize(with = |v: u8| v / 2), validate(greater_or_equal = 100), derive(Debug, Arbitrary)", "u8"),
+        ("sanitize(with = ulib::abs_f), validate(less = 0.0), derive(Debug, Arbitrary)", "f64"),
+        ("sanitize(with = ulib::clamp_0_1), validate(greater = 1.0, finite), derive(Debug, Arbitrary)", "f32"),
+        ("sanitize(with = ulib::strip_x), validate(not_empty), derive(Debug, Arbitrary)", "String"),
+        ("sanitize(with = ulib::truncate3), validate(len_char_min = 5), derive(Debug, Arbitrary)", "String"),
+        ("validate(predicate = ulib::is_even), derive(Debug, Arbitrary)", "u8"),
+        ("validate(predicate = ulib::is_integral), derive(Debug, Arbitrary)", "f64"),
+        ("validate(predicate = ulib::no_x), derive(Debug, Arbitrary)", "String"),
+        ("validate(regex = \"^[0-9]+$\"), derive(Debug, Arbitrary)", "String"),
+        ("validate(with = ulib::check_int, error = NumErr), derive(Debug, Arbitrary)", "i32"),
+        ("validate(with = ulib::check_float, error = NumErr), derive(Debug, Arbitrary)", "f64"),
+        ("validate(with = ulib::check_str, error = StrErr), derive(Debug, Arbitrary)", "String"),
+        ("validate(predicate = ulib::vec_nonempty), derive(Debug, Arbitrary)", "Vec<i64>"),
+        // controls: combinations the generators do support
+        ("validate(greater = 0, less = 3), derive(Debug, Arbitrary)", "i32"),
+        ("sanitize(trim, lowercase), validate(not_empty, len_char_max = 4), derive(Debug, Arbitrary)", "String"),
+        ("sanitize(with = ulib::to_even), derive(Debug, Arbitrary)", "u8"),
+    ];
+    for (k, (attr, ty)) in decls.iter().enumerate() {
+        let name = format!("Ax{k}");
+        let control = k >= decls.len() - 3;
+        let mut c = raw_case(if control { "control" } else { "decl" }, if control { "accept" } else { "either" }, "arbitrary-with-unknowable-valid-set", attr, &format!("pub struct {name}({ty});"), "");
+        c.text = format!("#[nutype({attr})] pub struct {name}({ty});");
+        let has_validation = attr.contains("validate(");
+        for b in &inputs {
+            let bytes: Vec<String> = b.iter().map(|x| format!("{x}u8")).collect();
+            let check = if has_validation { format!("match {name}::try_new(v) {{ Ok(_) => \"ok\".to_string(), Err(e) => format!(\"INVALID {{:?}}\", e) }}") } else { "{ let _ = v; \"ok\".to_string() }".to_string() };
+            let code = format!(
+                "{{ let data: &[u8] = &[{}]; let r = std::panic::catch_unwind(|| {{ let mut u = arbitrary::Unstructured::new(data); <{name} as arbitrary::Arbitrary>::arbitrary(&mut u).map(|t| t.into_inner()) }}); match r {{ Ok(Ok(v)) => {check}, Ok(Err(_)) => \"ok\".to_string(), Err(_) => \"PANIC\".to_string() }} }}",
+                bytes.join(", ")
+            );
+            let shown: Vec<String> = b.iter().map(|x| format!("{x:02x}")).collect();
+            c.probes.push((code, format!("[{}] => ok", shown.join(" "))));
+        }
+        cases.push(c);
+    }
+    cases
+}
